@@ -22,7 +22,7 @@ use std::sync::mpsc::{channel, Receiver, Sender};
 // ---------------------------------------------------------------------------
 
 /// Failing table calls with distinct descriptions.
-pub const FAIL_KINDS: usize = 7;
+pub const FAIL_KINDS: usize = 12;
 
 fn fail_call(t: &FnTable, pp: &mut ParsedPacket, kind: usize, err: &mut *const CErr) -> i32 {
     unsafe {
@@ -60,13 +60,79 @@ fn fail_call(t: &FnTable, pp: &mut ParsedPacket, kind: usize, err: &mut *const C
                 let name = [b'a', 0xc3, 0xa9];
                 (t.raw_name_from_str)(&mut out, &mut len, err as *mut *const CErr, name.as_ptr() as *const libc::c_char, name.len())
             }
-            _ => {
+            6 => {
                 // rename with an empty target name
                 let src_name = [1u8, b'a', 0];
                 (t.rename_with_raw_names)(pp as *mut ParsedPacket, err as *mut *const CErr, src_name.as_ptr(), 0, src_name.as_ptr(), src_name.len(), false)
             }
+            7 => {
+                // rename to the root name (one of the longest descriptions there are)
+                let src_name: Vec<u8> = pp.question_raw0().expect("golden packet 0 has a question").0.to_vec();
+                let root = [0u8];
+                (t.rename_with_raw_names)(pp as *mut ParsedPacket, err as *mut *const CErr, root.as_ptr(), 1, src_name.as_ptr(), src_name.len(), false)
+            }
+            8 => {
+                // insertion into a packet that is 8 bytes short of the 8192-byte limit: "Packet too large"
+                let mut big = DNSSector::new(big_packet().clone()).unwrap().parse().unwrap();
+                let text = b"www.example.com. 1 IN A 1.2.3.4\0";
+                (t.add_to_answer)(&mut big as *mut ParsedPacket, err as *mut *const CErr, text.as_ptr() as *const libc::c_char)
+            }
+            _ => {
+                // failures inside an iteration callback: second delete of a record ("Void record"),
+                // set_raw_name with a name that is not well-formed
+                let mut own = DNSSector::new(gens::golden_packets()[0].clone()).unwrap().parse().unwrap();
+                let mut cbx = CbCtx { table: t, err: err as *mut *const CErr, rc: 0, kind };
+                (t.iter_answer)(&mut own as *mut ParsedPacket, cb_fail, &mut cbx as *mut CbCtx as *mut libc::c_void);
+                cbx.rc
+            }
         }
     }
+}
+
+struct CbCtx<'a> {
+    table: &'a FnTable,
+    err: *mut *const CErr,
+    rc: i32,
+    kind: usize,
+}
+
+const BAD_RAW_NAME: [u8; 5] = [3, b'a', b'.', b'b', 0];
+const POINTER_RAW_NAME: [u8; 4] = [1, b'a', 0xc0, 0x0c];
+
+unsafe extern "C" fn cb_fail(ctx: *mut libc::c_void, it: *const dnssector::c_abi::SectionIterator) -> bool {
+    unsafe {
+        let c = &mut *(ctx as *mut CbCtx);
+        let it = &mut *(it as *mut dnssector::c_abi::SectionIterator);
+        if c.kind == 9 {
+            let first = (c.table.delete)(it, c.err);
+            assert_eq!(first, 0, "first delete of a live record succeeds");
+            c.rc = (c.table.delete)(it, c.err);
+        } else {
+            let bad: &[u8] = if c.kind == 10 { &BAD_RAW_NAME } else { &POINTER_RAW_NAME };
+            c.rc = (c.table.set_raw_name)(it, c.err, bad.as_ptr(), bad.len());
+        }
+        false
+    }
+}
+
+/// A response of 8184 bytes: the shortest insertion (>= 11 bytes) exceeds the 8192-byte limit.
+fn big_packet() -> &'static Vec<u8> {
+    static BIG: std::sync::OnceLock<Vec<u8>> = std::sync::OnceLock::new();
+    BIG.get_or_init(|| {
+        let mut m = Message { id: 7, flags: 0x8180, qd: vec![Question { name: Name::from_dotted("example.com"), qtype: 16, qclass: 1 }], ..Default::default() };
+        let base = enc::encode(&m, Layout::Literal).bytes.len();
+        let mut left = 8184 - base;
+        while left > 0 {
+            // owner example.com (13) + 10 = 23 bytes of overhead per record
+            let d = (left - 23).min(4000);
+            let d = if left - 23 - d > 0 && left - 23 - d < 23 { d - 23 } else { d };
+            m.an.push(Record { owner: Name::from_dotted("example.com"), rtype: T_TXT, class: 1, ttl: 1, rdata: Rdata::Opaque(vec![0; d]) });
+            left -= 23 + d;
+        }
+        let b = enc::encode(&m, Layout::Literal).bytes;
+        assert_eq!(b.len(), 8184);
+        b
+    })
 }
 
 /// Expected description of each failure kind, computed through the native API.
@@ -80,6 +146,32 @@ fn native_descriptions() -> Vec<String> {
     v.push(dgen::raw_name_from_str(&[b'y'; 254], None).unwrap_err().to_string());
     v.push(dgen::raw_name_from_str(&[b'a', 0xc3, 0xa9], None).unwrap_err().to_string());
     v.push(pp.rename_with_raw_names(&[], &[1, b'a', 0], false).unwrap_err().to_string());
+    let qn: Vec<u8> = pp.question_raw0().expect("golden packet 0 has a question").0.to_vec();
+    v.push(pp.rename_with_raw_names(&[0], &qn, false).unwrap_err().to_string());
+    {
+        let mut big = DNSSector::new(big_packet().clone()).unwrap().parse().unwrap();
+        v.push(big.insert_rr_from_string(dnssector::constants::Section::Answer, "www.example.com. 1 IN A 1.2.3.4").unwrap_err().to_string());
+    }
+    {
+        use dnssector::rr_iterator::TypedIterable;
+        let mut own = DNSSector::new(gens::golden_packets()[0].clone()).unwrap().parse().unwrap();
+        let mut it = own.into_iter_answer().expect("golden packet 0 has an answer");
+        it.delete().expect("first delete");
+        v.push(it.delete().unwrap_err().to_string());
+        let mut own = DNSSector::new(gens::golden_packets()[0].clone()).unwrap().parse().unwrap();
+        let mut it = own.into_iter_answer().expect("golden packet 0 has an answer");
+        v.push(it.set_raw_name(&BAD_RAW_NAME).unwrap_err().to_string());
+    }
+    {
+        use dnssector::rr_iterator::TypedIterable;
+        let mut own = DNSSector::new(gens::golden_packets()[0].clone()).unwrap().parse().unwrap();
+        let mut it = own.into_iter_answer().expect("golden packet 0 has an answer");
+        v.push(it.set_raw_name(&POINTER_RAW_NAME).unwrap_err().to_string());
+    }
+    assert_eq!(v.len(), FAIL_KINDS);
+    if std::env::var_os("VERIF_DEBUG_TRACES").is_some() {
+        eprintln!("C16 descriptions: {:#?}", v);
+    }
     v
 }
 
@@ -249,7 +341,7 @@ fn c16_case(data: &[u8], st: &mut Stats) -> PResult {
             } else {
                 let k = src.below(FAIL_KINDS);
                 // packet-level failures (add_to_answer, add_to_question, rename) sometimes on a packet shared by all threads
-                if matches!(k, 2 | 3 | 6) && src.chance(128) {
+                if matches!(k, 2 | 3 | 6 | 7) && src.chance(128) {
                     FAIL_KINDS + 1 + k + FAIL_KINDS * src.below(2)
                 } else {
                     k
@@ -275,7 +367,7 @@ fn c16_case(data: &[u8], st: &mut Stats) -> PResult {
         st.class("read-after-foreign-failure");
         st.nontrivial(&sched);
         if st.wants_sample(&format!("threads:{}", n)) {
-            st.sample(&format!("threads:{}", n), json!({"schedule (thread, step: 0..6 = failure kind on the thread's own packet, 7 = read, 8.. = failure kind on a shared packet)": sched}));
+            st.sample(&format!("threads:{}", n), json!({"schedule (thread, step: 0..11 = failure kind on the thread's own packet, 12 = read, 13.. = failure kind on a shared packet)": sched}));
         }
     }
     Ok(())
@@ -290,9 +382,11 @@ pub fn check_c16(ctx: &Ctx, known: &KnownFindings) -> Report {
     let ks = known_sigs(known, "C16");
     let maxlen = if ctx.tier == Tier::Thorough { 8 } else { 6 };
     // exhaustive: 2 threads x {fail kind 0, fail kind 2, read}; all schedules up to maxlen
-    let symbols: Vec<(usize, usize)> = vec![(0, 0), (0, 2), (0, FAIL_KINDS), (1, 0), (1, 2), (1, FAIL_KINDS)];
+    // ... and the same with the two longest descriptions (kinds 3, 7) and two payload-free error kinds (8, 9), one step shorter
     let groups = ctx.threads.max(1).min(8);
     let results: std::sync::Mutex<(u64, u64, Vec<Failure>)> = std::sync::Mutex::new((0, 0, vec![]));
+    for (ka, kb, maxlen) in [(0usize, 2usize, maxlen), (3, 7, maxlen - 1), (8, 9, maxlen - 1)] {
+    let symbols: Vec<(usize, usize)> = vec![(0, ka), (0, kb), (0, FAIL_KINDS), (1, ka), (1, kb), (1, FAIL_KINDS)];
     std::thread::scope(|s| {
         for g in 0..groups {
             let symbols = &symbols;
@@ -337,6 +431,7 @@ pub fn check_c16(ctx: &Ctx, known: &KnownFindings) -> Report {
             });
         }
     });
+    }
     let (n, nt, fails) = results.into_inner().unwrap();
     rep.stats.evals += n;
     rep.counted_nontrivial = nt;
@@ -345,7 +440,7 @@ pub fn check_c16(ctx: &Ctx, known: &KnownFindings) -> Report {
         rep.direct("exhaustive schedule", Ok(Err(f)), &ks);
     }
     rep.exhaustive = Some(true);
-    rep.extra.insert("exhaustive_subspace".into(), json!(format!("all schedules of length 1..{} over 2 threads x {{fail(name conversion), fail(record text), read}} = {} schedules, executed in lock-step", maxlen, n)));
+    rep.extra.insert("exhaustive_subspace".into(), json!(format!("all schedules of length 1..{} over 2 threads x {{fail(name conversion), fail(record text), read}}, and of length 1..{} over 2 threads x {{fail(second question), fail(rename to root), read}} and x {{fail(packet too large), fail(void record), read}} = {} schedules, executed in lock-step", maxlen, maxlen - 1, n)));
     rep.stats.sample("exhaustive", json!({"schedule": "[(0,fail0),(1,fail2),(0,read)]", "expected": "thread 0 reads the name-conversion failure"}));
     // many live threads: 70 threads fail once, then each fails again in turn while all others re-read
     {
@@ -384,7 +479,7 @@ pub fn check_c16(ctx: &Ctx, known: &KnownFindings) -> Report {
     let prop = (200usize, c16_case);
     let r = drive(&prop, ctx.cases(20_000, 400_000), ctx, 16, &ks);
     rep.absorb(r);
-    rep.rule = "schedules = sequences of (thread, fail_k | read) executed exactly: each schedule thread is an OS thread that performs one table call per command received over a channel and replies before the next command is issued (the harness owns the interleaving). fail_k are seven table calls failing with seven distinct descriptions (raw_name_from_str x4, add_to_answer, add_to_question, rename_with_raw_names); read = error_description(err) with that thread's err pointer. Oracle: model of per-thread last failure (descriptions taken from the native API); every read returns it. Exhaustive for 2 threads x 2 failure kinds x read up to the stated length; random for 3-4 threads, length <= 40, packet-level failures on the thread's own packet or on one of two packets handed between the threads; one deterministic schedule with 70 live threads; one with 300 short-lived failing threads while an early thread keeps re-reading its description. Non-trivial: a read whose thread's last failure precedes a failure on another thread.".into();
+    rep.rule = "schedules = sequences of (thread, fail_k | read) executed exactly: each schedule thread is an OS thread that performs one table call per command received over a channel and replies before the next command is issued (the harness owns the interleaving). fail_k are twelve failing table calls (raw_name_from_str x4, add_to_answer with unparsable text / at the 8192-byte limit, add_to_question, rename_with_raw_names with an empty / a root target, and inside an iter_answer callback a second delete and set_raw_name with a malformed / a compressed name) covering payload-free error kinds (Parse error, Packet too large, Void record), payload-carrying ones and the two descriptions longer than 64 bytes; read = error_description(err) with that thread's err pointer. Oracle: model of per-thread last failure (descriptions taken from the native API); every read returns it. Exhaustive for 2 threads x 2 failure kinds x read up to the stated length, for three pairs of kinds (short payload-carrying, the two longest descriptions, two payload-free kinds); random for 3-4 threads, length <= 40, packet-level failures on the thread's own packet or on one of two packets handed between the threads; one deterministic schedule with 70 live threads; one with 300 short-lived failing threads while an early thread keeps re-reading its description. Non-trivial: a read whose thread's last failure precedes a failure on another thread.".into();
     rep.assumptions = vec!["interleavings are explored at the granularity of whole table calls (the property's own granularity); interleavings inside throw_err are not".into(), "a read before the thread's first failure is not judged (err pointer still NULL)".into()];
     rep.require(&["exhaustive-schedules", "threads:3", "threads:4", "read-after-foreign-failure", "many-live-threads:70", "short-lived-threads:300"]);
     rep
@@ -475,10 +570,102 @@ fn gen_call(src: &mut Src) -> Call {
     }
 }
 
+fn vary_bytes(src: &mut Src, b: &[u8]) -> Vec<u8> {
+    let mut v = b.to_vec();
+    if v.is_empty() {
+        return vec![0];
+    }
+    match src.below(6) {
+        0 | 1 => {
+            // ASCII case of one letter (or of all letters) after the header
+            let letters: Vec<usize> = (12.min(v.len())..v.len()).filter(|&i| v[i].is_ascii_alphabetic()).collect();
+            if letters.is_empty() {
+                v[0] ^= 1;
+            } else if src.chance(128) {
+                let i = *src.pick(&letters);
+                v[i] ^= 0x20;
+            } else {
+                for i in letters {
+                    v[i] ^= 0x20;
+                }
+            }
+        }
+        2 => v[0] ^= 0x80,
+        3 => {
+            let i = src.below(v.len());
+            v[i] ^= 1 << src.below(8);
+        }
+        4 => {
+            let i = v.len() - 1;
+            v[i] = v[i].wrapping_add(1);
+        }
+        _ => {
+            // same length, same first and last bytes, middle byte changed
+            let i = v.len() / 2;
+            v[i] = v[i].wrapping_add(1);
+        }
+    }
+    v
+}
+
+/// A call of the same function whose input differs from `c`'s only slightly (ASCII case, one byte,
+/// one flag): what a cache with a sloppy key would confuse with `c`.
+fn vary_call(src: &mut Src, c: &Call) -> Call {
+    match c {
+        Call::Parse(b) => Call::Parse(vary_bytes(src, b)),
+        Call::Uncompress(b) => Call::Uncompress(vary_bytes(src, b)),
+        Call::Compress(b) => Call::Compress(vary_bytes(src, b)),
+        Call::Rename(b, t, s, sfx) => match src.below(4) {
+            0 => Call::Rename(b.clone(), t.clone(), s.clone(), !*sfx),
+            1 => Call::Rename(b.clone(), t.iter().map(|&c| if c.is_ascii_alphabetic() { c ^ 0x20 } else { c }).collect(), s.clone(), *sfx),
+            2 => Call::Rename(b.clone(), s.clone(), t.clone(), *sfx),
+            _ => Call::Rename(vary_bytes(src, b), t.clone(), s.clone(), *sfx),
+        },
+        Call::Synth(t) => {
+            let flip = |c: char| if c.is_ascii_lowercase() { c.to_ascii_uppercase() } else { c.to_ascii_lowercase() };
+            match src.below(4) {
+                0 => Call::Synth(t.chars().map(flip).collect()),
+                1 => {
+                    // case of the owner name only
+                    let cut = t.find(' ').unwrap_or(t.len());
+                    Call::Synth(t[..cut].chars().map(flip).chain(t[cut..].chars()).collect())
+                }
+                2 => {
+                    // case of the data only
+                    let cut = t.rfind(' ').unwrap_or(0);
+                    Call::Synth(t[..cut].chars().chain(t[cut..].chars().map(flip)).collect())
+                }
+                _ => {
+                    // one digit changed
+                    let mut cs: Vec<char> = t.chars().collect();
+                    if let Some(i) = cs.iter().rposition(|c| c.is_ascii_digit()) {
+                        cs[i] = if cs[i] == '1' { '2' } else { '1' };
+                    }
+                    Call::Synth(cs.into_iter().collect())
+                }
+            }
+        }
+    }
+}
+
 fn c17_case(data: &[u8], st: &mut Stats) -> PResult {
     let mut src = Src::new(data);
     let k = src.range(3, 8);
-    let pool: Vec<Call> = (0..k).map(|_| gen_call(&mut src)).collect();
+    let mut pool: Vec<Call> = vec![];
+    // (original, variant) pool indices
+    let mut pairs: Vec<(usize, usize)> = vec![];
+    for i in 0..k {
+        if i > 0 && src.chance(90) {
+            let j = src.below(i);
+            let v = vary_call(&mut src, &pool[j]);
+            if v != pool[j] {
+                pairs.push((j, i));
+            }
+            pool.push(v);
+        } else {
+            pool.push(gen_call(&mut src));
+        }
+    }
     // baseline: each call alone on a freshly spawned thread (fresh thread-locals)
     let baseline: Vec<Vec<u8>> = pool
         .iter()
@@ -489,7 +676,12 @@ fn c17_case(data: &[u8], st: &mut Stats) -> PResult {
         .collect();
     // history on this thread
     let hlen = src.range(4, 24);
-    let hist: Vec<usize> = (0..hlen).map(|_| src.below(k)).collect();
+    let mut hist: Vec<usize> = (0..hlen).map(|_| src.below(k)).collect();
+    // every near-variant directly after its original, and the original again
+    for &(a, b) in &pairs {
+        hist.extend([a, b, a]);
+        st.class(&format!("variant-directly-after-original:kind{}", pool[a].kind()));
+    }
     let mut prev_kind_input: Vec<Option<usize>> = vec![None; 5];
     for (i, &ix) in hist.iter().enumerate() {
         let got = eval_call(&pool[ix]);
@@ -549,7 +741,7 @@ pub fn replay_c17(data: &[u8]) -> PResult {
 pub fn check_c17(ctx: &Ctx, known: &KnownFindings) -> Report {
     let mut rep = Report::new("C17");
     let ks = known_sigs(known, "C17");
-    rep.rule = "pools of 3..8 calls over {DNSSector::parse, Compress::uncompress, Compress::compress, Renamer::rename_with_raw_names, RR::from_string} on generated inputs (valid, damaged, raw). Baseline: each call alone on a freshly spawned thread. Then a random history of 4..24 calls on one thread, then 2..6 threads running random plans concurrently behind a barrier: every evaluation must be byte-identical to the baseline (Ok bytes and object fields, or the same error text). ParsedPacket::empty()/gen::query are compared with the id masked and the id is checked to vary. Non-trivial: an evaluation preceded on its thread by a call of the same function on a different input; distinct = hash of the (call, previous call) pair.".into();
+    rep.rule = "pools of 3..8 calls over {DNSSector::parse, Compress::uncompress, Compress::compress, Renamer::rename_with_raw_names, RR::from_string} on generated inputs (valid, damaged, raw; about a third of the pool entries are near-variants of an earlier entry: ASCII case of one or all letters, one byte or bit, the suffix flag, target and source swapped, one digit of a record text - and the history runs original, variant, original back to back). Baseline: each call alone on a freshly spawned thread. Then a random history of 4..24 calls on one thread, then 2..6 threads running random plans concurrently behind a barrier: every evaluation must be byte-identical to the baseline (Ok bytes and object fields, or the same error text). ParsedPacket::empty()/gen::query are compared with the id masked and the id is checked to vary. Non-trivial: an evaluation preceded on its thread by a call of the same function on a different input; distinct = hash of the (call, previous call) pair.".into();
     rep.assumptions = vec!["the concurrent half is a stress differential: the library shares no memory between threads, so there is no schedule for the harness to control".into()];
     // the one permitted randomness
     let r = catch(|| -> PResult {
@@ -579,6 +771,7 @@ pub fn check_c17(ctx: &Ctx, known: &KnownFindings) -> Report {
     let r = drive(&prop, ctx.cases(6_000, 150_000), ctx, 17, &ks);
     rep.absorb(r);
     let mut req: Vec<String> = (0..5).map(|k| format!("same-function-different-input:kind{}", k)).collect();
+    req.extend((0..5).map(|k| format!("variant-directly-after-original:kind{}", k)));
     req.push("threads:2".into());
     req.push("threads:6".into());
     rep.required.extend(req);
